@@ -345,13 +345,21 @@ def explore(run_once: Callable[[Callable[[Scheduler, list[str]], str | None]], A
     run_once(policy) must build a fresh scenario, run it under `policy` and return a result.
     The policy records the decisions; alternatives are pushed as new prefixes.
     """
-    stack: list[tuple[list[str], int]] = [([], 0)]   # (prefix of choices, preemptions used in prefix)
-    stats = {"executions": 0, "truncated": 0, "diverged": 0}
+    # priority queue ordered by the number of preemptions used: every schedule with k preemptions is
+    # executed before any schedule with k+1, so a truncated exploration is still complete for small k
+    import heapq
+    tick = itertools.count()
+    stack: list[tuple[int, int, list[str]]] = [(0, next(tick), [])]
+    stats = {"executions": 0, "truncated": 0, "diverged": 0, "complete_preemption_level": -1}
+    level = 0
     while stack:
         if stats["executions"] >= max_executions:
             stats["truncated"] = len(stack)
             break
-        prefix, used = stack.pop()
+        used, _, prefix = heapq.heappop(stack)
+        if used > level:
+            stats["complete_preemption_level"] = level
+            level = used
         decisions: list[Decision] = []
         state = {"i": 0, "used": used, "div": 0}
 
@@ -392,10 +400,12 @@ def explore(run_once: Callable[[Callable[[Scheduler, list[str]], str | None]], A
         for i in range(len(prefix), len(decisions)):
             d = decisions[i]
             for alt in d.free_alts:
-                stack.append((taken[:i] + [alt], used_at))
+                heapq.heappush(stack, (used_at, next(tick), taken[:i] + [alt]))
             if used_at < max_preemptions:
                 for alt in d.preemptive_alts:
-                    stack.append((taken[:i] + [alt], used_at + 1))
+                    heapq.heappush(stack, (used_at + 1, next(tick), taken[:i] + [alt]))
+    if not stack:
+        stats["complete_preemption_level"] = max_preemptions
     return stats
 
 
